@@ -274,6 +274,15 @@ func histCase(s *session, r *hx.Rand, i int) {
 		s.step(d.build())
 		sent = append(sent, d)
 	}
+	// some operators are never heard with a message of their own: the validator keeps no state for them,
+	// but they co-sign decided messages
+	silent := map[spectypes.OperatorID]bool{}
+	if r.Chance(1, 2) {
+		for j := 0; j < 1+r.Intn(2); j++ {
+			silent[sc.val.committee[r.Intn(sc.n())]] = true
+		}
+	}
+	prevSlot := sc.slot
 	slots := 1 + r.Intn(4)
 	for k := 0; k < slots; k++ {
 		h := sc.history()
@@ -281,8 +290,38 @@ func histCase(s *session, r *hx.Rand, i int) {
 			if r.Chance(1, 6) {
 				continue // lost
 			}
+			if d.cons != nil && len(d.cons.Signers) == 1 && silent[d.cons.Signers[0]] {
+				s.out.Count("hist_silent_drop")
+				continue
+			}
+			if d.part != nil && silent[d.part.Signer] {
+				s.out.Count("hist_silent_drop")
+				continue
+			}
+			if d.cons != nil && len(d.cons.Signers) > 1 && r.Chance(1, 2) {
+				// the decided message of the duty from another quorum
+				d = sc.consDraft(sc.decided(sc.randomQuorum(r), uint64(d.cons.Message.Round), sc.value))
+			}
 			emit(d)
 			switch r.Intn(12) {
+			case 4, 5: // a decided message that takes its signers back: lower round, or the previous duty's slot
+				if d.cons != nil {
+					var dd *draft
+					if d.cons.Message.Round > 1 && r.Chance(1, 2) {
+						dd = sc.consDraft(sc.decided(sc.randomQuorum(r), 1, sc.value))
+						s.out.Count("hist_decided_lower_round")
+					} else if k > 0 {
+						cur := sc.slot
+						sc.slot = prevSlot
+						dd = sc.consDraft(sc.decided(sc.randomQuorum(r), 1, sc.value))
+						sc.slot = cur
+						s.out.Count("hist_decided_lower_slot")
+					}
+					if dd != nil {
+						dd.sec, dd.nsec = d.sec, d.nsec
+						s.step(dd.build())
+					}
+				}
 			case 0: // replay of an earlier message, received now
 				old := cloneDraft(sent[r.Intn(len(sent))])
 				old.sec, old.nsec = d.sec, d.nsec
@@ -303,10 +342,14 @@ func histCase(s *session, r *hx.Rand, i int) {
 				}
 			case 2: // decided flood: the same decided message many times
 				if d.cons != nil {
-					dd := sc.consDraft(sc.decided(sc.quorumPositions(int(sc.val.share.Quorum)), uint64(d.cons.Message.Round), sc.value))
-					dd.sec, dd.nsec = d.sec, d.nsec
 					limit := sc.n() * ((sc.n()-1)/3 + 1)
+					vary := r.Chance(1, 2)
+					dd := sc.consDraft(sc.decided(sc.randomQuorum(r), uint64(d.cons.Message.Round), sc.value))
 					for j := 0; j < limit+2; j++ {
+						if vary && j > 0 {
+							dd = sc.consDraft(sc.decided(sc.randomQuorum(r), uint64(d.cons.Message.Round), sc.value))
+						}
+						dd.sec, dd.nsec = d.sec, d.nsec
 						s.step(dd.build())
 					}
 					s.out.Count("hist_decided_flood")
@@ -328,6 +371,7 @@ func histCase(s *session, r *hx.Rand, i int) {
 		if r.Chance(1, 5) {
 			step += slotsInEpoch
 		}
+		prevSlot = sc.slot
 		sc.slot += step
 		sc.value = append([]byte(fmt.Sprintf("value-%d-", k)), r.Bytes(8)...)
 	}
